@@ -114,7 +114,7 @@ theorem nnas_login_carried (s : Nnas) (st : NnasSet) (u p : String) (t : Option 
   · exact nnas_setter_carried s st none _ f h
   · cases st <;> simp [NnasSet.loginFields] at h
     rename_i id serial sv c
-    cases c <;> simp [NnasSet.loginFields] at h
+    cases c <;> simp at h
     subst h
     simp [Nnas.login, Nnas.apply, Nnas.prepare]
 
@@ -136,31 +136,40 @@ theorem nnas_calls_prepare (s : Nnas) (tok cid : String) (g : Nat) (pids : List 
     (s.getPids nnids).2.headers = s.prepare none none ∧ (s.getNnids pids).2.headers = s.prepare none none :=
   ⟨rfl, rfl, rfl, rfl, rfl, rfl⟩
 
+theorem apply_ok_title {s s' : Nasc} {id v pc mc mt rom} (h : s.apply (.title id v pc mc mt rom) = .ok s') :
+    s' = { s with titleId := some id, titleVersion := v, productCode := pc, makerCode := mc, mediaType := mt, romId := rom } := by
+  simp only [Nasc.apply] at h
+  split at h
+  · cases h
+  · cases h; rfl
+
 theorem nasc_setter_carried (s s' : Nasc) (st : NascSet) (h : s.apply st = .ok s') (g : Nat) (nick dt : String)
     (F : List (String × RawV)) (hF : s'.form g nick dt = some F) : ∀ f ∈ st.fields, f ∈ F := by
-  cases st <;> simp [Nasc.apply] at h
-  case title id v pc mc mt rom =>
-    obtain ⟨_, h⟩ := h; subst h
-    simp [Nasc.form] at hF
-    split at hF <;> simp at hF
-    subst hF
-    rename_i t n ht hn
-    simp at ht; subst ht
-    by_cases hm : mt = 2 <;> simp [NascSet.fields, Nasc.rawFields, hm]
-  all_goals
-    subst h
-    simp [Nasc.form] at hF
-    split at hF <;> simp at hF
-    subst hF
-    rename_i t n ht hn
-    simp at ht hn
-    try subst hn
-    simp [NascSet.fields, Nasc.rawFields]
+  unfold Nasc.form at hF
+  split at hF
+  case h_2 => cases hF
+  case h_1 t n ht hn =>
+    cases hF
+    cases st
+    case title id v pc mc mt rom =>
+      have := apply_ok_title h; subst this
+      simp at ht; subst ht
+      by_cases hm : mt = 2 <;> simp [NascSet.fields, Nasc.rawFields, hm]
+    all_goals
+      simp only [Nasc.apply] at h
+      cases h
+      simp at ht hn
+      try subst hn
+      simp [NascSet.fields, Nasc.rawFields]
 
 theorem nasc_setter_hdr_carried (s s' : Nasc) (st : NascSet) (h : s.apply st = .ok s') (g : Nat) :
     ∀ f ∈ st.hdrFields, f ∈ s'.loginHeaders g := by
-  cases st <;> simp [Nasc.apply] at h <;> (try obtain ⟨_, h⟩ := h) <;> subst h <;> simp [NascSet.hdrFields, Nasc.loginHeaders]
-
+  cases st
+  case title id v pc mc mt rom => simp [NascSet.hdrFields]
+  all_goals
+    simp only [Nasc.apply] at h
+    cases h
+    simp [NascSet.hdrFields, Nasc.loginHeaders]
 /-! ### hpp -/
 
 theorem hpp_set_environment : Hpp.host { gameServerId := 0x1234, environment := "L1" } ≠ Hpp.host { gameServerId := 0x1234, environment := "D1" } := by
